@@ -612,3 +612,25 @@ func concurrentSame(what string, f func(float64) float64, args, want []float64) 
 		}
 	}
 }
+
+// appendProbe: results belong to the caller, and to one caller each: appending to one returned slice (within
+// whatever capacity it came with) must leave every other returned slice as it was.
+func appendProbe(what string, lists [][]int) {
+	saved := make([][]int, len(lists))
+	for i, l := range lists {
+		saved[i] = append([]int(nil), l...)
+	}
+	for _, l := range lists {
+		_ = append(l, -7777777)
+	}
+	for i, l := range lists {
+		if len(l) != len(saved[i]) {
+			panic(what + ": a returned slice changed length")
+		}
+		for j := range l {
+			if l[j] != saved[i][j] {
+				panic(fmt.Sprintf("%s: results share storage: appending to one returned slice changed another (list %d, element %d: %d -> %d)", what, i, j, saved[i][j], l[j]))
+			}
+		}
+	}
+}
